@@ -107,7 +107,8 @@ PROPS = {
     ),
     'C16': dict(
         covered=['location_from_span: line = start line, column = start column + 1 (1-based), char offset/length from the marks, byte offset/length when both byte marks exist and fit, else (0,0); Span::byte_offset/byte_len; Locations::same',
-                 'Ev::location, KeyNode::location; ReplayEvents::reference_location = override, else current event, else last; last_location'],
+                 'Ev::location, KeyNode::location; ReplayEvents::reference_location = override, else current event, else last; last_location',
+                 'the Events trait contract for reference_location: after a successful peek it is the alias token while an alias is being replayed, else the location of the peeked event (ReplayEvents and LiveEvents both proved against it); SA::next_element_seed, MA::next_value_seed and VA::newtype_variant_seed hand exactly that use site, and the node\'s own location as definition site, to the seed'],
         not_covered=['that saphyr-parser marks agree with each other and with the text; serde static-error fallback location (thread-local)'],
         assumptions=['coordinates below 2^32 and start <= end for parser marks (preconditions of location_from_span)'],
     ),
